@@ -17,12 +17,17 @@
 (*  hypot    lib/py/math.Hypot(coordinates ...*Object), exact cases        *)
 (*  funcref  a Python function named through its Go binding is itself an   *)
 (*           argument of a call (std.Print(std.Abs))                       *)
+(*  colookup one Go package calls functions of several modules, among them *)
+(*           a package module and its dotted submodule whose attribute     *)
+(*           names sort before and after the submodule's name (every       *)
+(*           non-empty subset of four symbols): each name must resolve in  *)
+(*           ITS module, whatever else the calling package binds           *)
 (*                                                                         *)
 (* Nothing here says how a call is lowered: Call (PyBridge) is the law.    *)
 (***************************************************************************)
 EXTENDS PyBridge, Json
 
-CONSTANT Family      \* "dual" | "govar" | "hypot" | "funcref" | "all"
+CONSTANT Family      \* "dual" | "govar" | "hypot" | "funcref" | "colookup" | "all"
 
 \* position i of every call carries the i-th of four different objects: a dropped, repeated or displaced argument shows
 ArgSeq == << GoInt("i64", [neg |-> FALSE, m |-> Small(7)]), GoString(<<97>>), GoFloat("f64", "half"),
@@ -49,6 +54,15 @@ HypotCases == {[fam |-> "hypot", coords |-> c] : c \in {<<>>, <<3>>, <<3, 4>>, <
 RefCases   == {[fam |-> "funcref", n |-> n, pos |-> p, ref |-> r] : n \in 1..3, p \in 1..3, r \in Refs}
 RefSel     == {c \in RefCases : c.pos <= c.n}
 
+\* the functions a package may call, in program text order: module, attribute, and what calling it returns (the namespaces
+\* of vmod and vpk.sub are PyBridge's; vpk is the package module of vpk.sub: "alpha" < "sub" < "zeta"; python3 validates)
+VpkSpace == [alpha |-> PyText(<<112, 97>>), zeta |-> PyText(<<112, 122>>)]
+Sym(mod, attr, val) == [mod |-> mod, attr |-> attr, py |-> val]
+Syms == << Sym("vmod", "who", Lookup("vmod", "who")), Sym("vpk", "alpha", VpkSpace["alpha"]),
+           Sym("vpk_sub", "who", Lookup("vpk_sub", "who")), Sym("vpk", "zeta", VpkSpace["zeta"]) >>
+CoLookupCases == {[fam |-> "colookup", sel |-> s] : s \in (SUBSET DOMAIN Syms) \ {{}}}
+Selected(c) == SelectSeq(Syms, LAMBDA y : \E i \in c.sel : Syms[i] = y)
+
 \* the calls a case makes, in program order
 Calls(c) ==
   CASE c.fam = "dual"    -> << CallT(Args(c.first)), CallT(Args(c.second)) >>
@@ -66,7 +80,8 @@ Init == CASE Family = "dual"    -> case \in DualCases
           [] Family = "govar"   -> case \in GoVarCases
           [] Family = "hypot"   -> case \in HypotCases
           [] Family = "funcref" -> case \in RefSel
-          [] Family = "all"     -> case \in DualCases \cup GoVarCases \cup HypotCases \cup RefSel
+          [] Family = "colookup" -> case \in CoLookupCases
+          [] Family = "all"     -> case \in DualCases \cup GoVarCases \cup HypotCases \cup RefSel \cup CoLookupCases
 Next == UNCHANGED case
 Spec == Init /\ [][Next]_case
 
@@ -78,6 +93,9 @@ LawAllDelivered == \A k \in DOMAIN Calls(case) :
 \* a function argument arrives as the object its name resolves to, never as something else
 LawSameObject == case.fam = "funcref" =>
                    LET c == Calls(case)[1] IN c.recv[case.pos] = Resolve[case.ref.mod][case.ref.attr]
+\* a name resolves in its own module: what the package gets for (mod, attr) does not depend on the other names it binds
+LawOwnModule == case.fam = "colookup" =>
+                  \A i \in case.sel : \E k \in DOMAIN Selected(case) : Selected(case)[k] = Syms[i]
 LawHypot == case.fam = "hypot" => Hypot(case.coords) * Hypot(case.coords) = SumSq(case.coords)
 
 Emit ==
@@ -86,6 +104,8 @@ Emit ==
                                               calls |-> Calls(case)]))
     [] case.fam = "funcref" -> PrintT(ToJson([fam |-> "funcref", n |-> case.n, pos |-> case.pos, ref |-> case.ref,
                                               calls |-> Calls(case)]))
+    [] case.fam = "colookup" -> PrintT(ToJson([fam |-> "colookup", sel |-> SelectSeq(<<1, 2, 3, 4>>, LAMBDA i : i \in case.sel),
+                                               syms |-> Selected(case)]))
     [] case.fam = "hypot"   -> PrintT(ToJson([fam |-> "hypot", coords |-> case.coords,
                                               ret |-> [t |-> "float", whole |-> Hypot(case.coords)]]))
 =============================================================================
